@@ -21,9 +21,9 @@ type Sys struct {
 }
 
 var (
-	reFull   = regexp.MustCompile(`^(\d+) (\w+)\((.*)\)\s+= (-?\d+|\?)(.*)$`)
-	reUnfin  = regexp.MustCompile(`^(\d+) (\w+)\((.*) <unfinished \.\.\.>$`)
-	reResume = regexp.MustCompile(`^(\d+) <\.\.\. (\w+) resumed>(.*)\)\s+= (-?\d+|\?)(.*)$`)
+	reFull   = regexp.MustCompile(`^(\d+)\s+(\w+)\((.*)\)\s+= (-?\d+|\?)(.*)$`)
+	reUnfin  = regexp.MustCompile(`^(\d+)\s+(\w+)\((.*) <unfinished \.\.\.>$`)
+	reResume = regexp.MustCompile(`^(\d+)\s+<\.\.\. (\w+) resumed>(.*)\)\s+= (-?\d+|\?)(.*)$`)
 	reFdPath = regexp.MustCompile(`^(\d+)<([^>]*)>`)
 	reQuoted = regexp.MustCompile(`"((?:[^"\\]|\\.)*)"`)
 )
